@@ -74,8 +74,9 @@ class State(object):
 CLASS_DECL = {}     # qual -> {'fields': {name: type}, 'truthy': ghostname or None, 'open': bool}
 
 
-def declare_class(qual, fields=None, truthy=None, open=False):
-    d = CLASS_DECL.setdefault(qual, {'fields': {}, 'truthy': None, 'open': False})
+def declare_class(qual, fields=None, truthy=None, open=False, methods=None):
+    d = CLASS_DECL.setdefault(qual, {'fields': {}, 'truthy': None, 'open': False, 'methods': {}})
+    d['methods'].update(methods or {})
     for k, v in (fields or {}).items():
         d['fields'][k] = Ty.parse_type(v)
     if truthy:
@@ -132,6 +133,12 @@ def class_truthy_ghost(clsq):
 # ------------------------------------------------------------------------------ ghost functions
 
 GHOSTS = {}
+GHOST_AXIOMS = {}      # ghost name -> [(label, closed spec text, module)] assumed whenever the ghost is mentioned (E-* items)
+
+
+def axiom(ghostname, label, text, modname='saml2_tophat.sigver'):
+    GHOST_AXIOMS.setdefault(ghostname, []).append((label, text, modname))
+
 _SORTS = {'Val': Val, 'Int': IntS, 'Bool': BoolS, 'Str': StrS, 'Seq': SeqVal}
 
 
@@ -355,6 +362,8 @@ def str_of(x):
     if isinstance(x, SV):
         if x.has_py and isinstance(x.py, str):
             return z3.StringVal(x.py)
+        if isinstance(Ty.strip_opt(x.ty), Ty.TBytes):
+            return vy(x.term)
         return vs(x.term)
     if isinstance(x, str):
         return z3.StringVal(x)
